@@ -613,8 +613,17 @@ class SimNet:
 
     # connections ----------------------------------------------------------------
     def resolve(self, host):
-        # DNS names are case-insensitive
-        h = host.lower() if isinstance(host, str) else host
+        # what a real resolver is handed: socket.getaddrinfo (and ssl's server_hostname) encode a
+        # str host with the "idna" codec - nameprep: NFKC + case folding, so full-width or
+        # otherwise "compatible" spellings are the SAME name - and DNS names are case-insensitive
+        h = host
+        if isinstance(h, str):
+            if not h.isascii():
+                try:
+                    h = h.encode("idna").decode("ascii")
+                except UnicodeError:
+                    pass
+            h = h.lower()
         return self.dns.get(h, h)
 
     def make_pair(self, caddr, saddr, policy_c2s, policy_s2c, cap_c2s=65536, cap_s2c=65536,
